@@ -24,7 +24,27 @@ def _api():
     return ints, objs, DiameterAnswer, ResultCodeAVP
 
 
-def _eval(api, w):
+SHAPES = ("plain", "ebit", "mixed")
+
+
+def _answer(api, w, shape):
+    """an answer carrying Result-Code w in different surroundings: the verdict may depend on the code only"""
+    _ints, _objs, DiameterAnswer, ResultCodeAVP = api
+    from bromelia.avps import OriginHostAVP, SessionIdAVP, ErrorMessageAVP
+    rc = ResultCodeAVP(bytes(w))
+    if shape == "plain":
+        return DiameterAnswer(command_code=272, application_id=4, avps=[rc])
+    if shape == "ebit":
+        ans = DiameterAnswer(command_code=316, application_id=16777251, avps=[rc])
+        ans.header.set_error_bit(True)
+        return ans
+    ans = DiameterAnswer(command_code=257, application_id=0,
+                         avps=[SessionIdAVP(b"a;1;2"), OriginHostAVP("host.example"), rc, ErrorMessageAVP("x")])
+    ans.header.flags = 0x50
+    return ans
+
+
+def _eval(api, w, shape="plain"):
     """returns (int predicate results, object predicate results) as lists of bools / error strings"""
     ints, objs, DiameterAnswer, ResultCodeAVP = api
     n = int.from_bytes(bytes(w), "big")
@@ -36,7 +56,7 @@ def _eval(api, w):
         except BaseException as e:
             out_i.append("raised " + type(e).__name__)
     try:
-        ans = DiameterAnswer(command_code=272, application_id=4, avps=[ResultCodeAVP(bytes(w))])
+        ans = _answer(api, w, shape)
     except BaseException as e:
         return out_i, ["raised " + type(e).__name__ + " building the answer"] * 5
     for f in objs:
@@ -48,19 +68,21 @@ def _eval(api, w):
     return out_i, out_o
 
 
-def _compare(rep, api, w, fam):
+def _compare(rep, api, w, fam, shapes=SHAPES):
     n = int.from_bytes(bytes(w), "big")
-    oi, oo = _eval(api, w)
     exp = [fam == k for k in range(1, 6)]
     ok = True
-    if oi != exp:
-        ok = False
-        rep.violation(f"integer predicates on {n}: is_result_code_family_1xxx..5xxx = {oi}, specification family = {fam}",
-                      {"word": list(w)})
-    if oo != exp:
-        ok = False
-        rep.violation(f"answer predicates on Result-Code {n}: is_1xxx_informational..is_5xxx_failure = {oo}, "
-                      f"specification family = {fam}", {"word": list(w)})
+    for shape in shapes:
+        oi, oo = _eval(api, w, shape)
+        if oi != exp and shape == "plain":
+            ok = False
+            rep.violation(f"integer predicates on {n}: is_result_code_family_1xxx..5xxx = {oi}, specification family = {fam}",
+                          {"word": list(w)})
+        if oo != exp:
+            ok = False
+            rep.violation(f"answer predicates on Result-Code {n} (answer shape '{shape}'): is_1xxx_informational..is_5xxx_failure = {oo}, "
+                          f"specification family = {fam}", {"word": list(w)})
+            break
     return ok
 
 
@@ -76,7 +98,7 @@ Vecs == SetToSeq({[w |-> Word32(n), fam |-> Family(Word32(n))] : n \\in Small}
 def run(rep):
     api = _api()
     rep.rule = ("V: all codes 0..65535 and 735 boundary 32-bit words, each through 5 integer and 5 answer-object "
-                "predicates; T: seeded random 32-bit words validated by TLC. distinct = distinct words")
+                "predicates on 3 answer shapes (plain; E bit set; Result-Code among other AVPs with other header flags); T: seeded random 32-bit words validated by TLC. distinct = distinct words")
     vecs, res = vectors.gen("Gen_Family", ["Types"], DEFS, "Vecs",
                             theorems=["\\A n \\in Small : Family(Word32(n)) = FamilyOfNat(n)",
                                       "\\A n \\in Small : SmallVal(Word32(n)) = n"],
@@ -84,7 +106,9 @@ def run(rep):
     rep.tlc("Gen_Family", res)
     for v in vecs:
         rep.case(tuple(v["w"]))
-        _compare(rep, api, v["w"], v["fam"])
+        n = int.from_bytes(bytes(v["w"]), "big")
+        allshapes = rep.tier == "thorough" or n < 7000 or n % 1000 in (0, 1, 999) or n % 13 == 0 or n > 65535
+        _compare(rep, api, v["w"], v["fam"], SHAPES if allshapes else SHAPES[:1])
         if len(rep.violations) >= 40:
             break
     rep.sample({"word": vecs[5012]["w"], "family": vecs[5012]["fam"]})
@@ -101,7 +125,7 @@ def run(rep):
         else:
             x = rng.getrandbits(32)
         w = list(x.to_bytes(4, "big"))
-        oi, oo = _eval(api, w)
+        oi, oo = _eval(api, w, SHAPES[i % 3])
         recs.append({"w": w, "ints": [o is True for o in oi], "objs": [o is True for o in oo],
                      "clean": all(isinstance(o, bool) for o in oi + oo)})
         rep.case(tuple(w))
